@@ -209,8 +209,8 @@ impl<T: BitRead> PackedRead for T {
             if lower_bound == upper_bound {
                 Ok(lower_bound_unwrapped)
             } else {
-                Ok(lower_bound_unwrapped
-                    + self.read_non_negative_binary_integer(lower_bound, upper_bound)?)
+                // the lower bound is already added by read_non_negative_binary_integer
+                self.read_non_negative_binary_integer(lower_bound, upper_bound)
             }
         } else if const_is_some!(upper_bound) && upper_bound_unwrapped <= LENGTH_64K {
             // 11.9.4.1 -> 11.9.3.4 -> 11.6.1
@@ -548,11 +548,8 @@ impl<T: BitWrite> PackedWrite for T {
                 )
                 .into())
             } else {
-                self.write_non_negative_binary_integer(
-                    lower_bound,
-                    upper_bound,
-                    value - lower_bound_unwrapped,
-                )?;
+                // the lower bound is already subtracted by write_non_negative_binary_integer
+                self.write_non_negative_binary_integer(lower_bound, upper_bound, value)?;
                 Ok(None)
             }
         } else if const_is_some!(upper_bound) && upper_bound_unwrapped <= LENGTH_64K {
